@@ -358,6 +358,17 @@ impl Transport for LocalTransport {
         // for files as small as 10MB when changes are localized (e.g., 1MB change in 100MB).
         const DELTA_THRESHOLD: u64 = 10 * 1024 * 1024; // 10MB
 
+        // verification hook: reach the block-compare path with small files
+        // (a destination of at least SY_VERIF_DELTA_THRESHOLD bytes passes the size gates)
+        #[cfg(nijaru_sy_verif)]
+        let dest_size = match std::env::var("SY_VERIF_DELTA_THRESHOLD")
+            .ok()
+            .and_then(|v| v.parse::<u64>().ok())
+        {
+            Some(t) if dest_size >= t => dest_size.max(DELTA_THRESHOLD),
+            _ => dest_size,
+        };
+
         if dest_size < DELTA_THRESHOLD {
             tracing::debug!(
                 "File size ({:.1} MB) below delta threshold ({} MB), using full copy",
@@ -389,6 +400,12 @@ impl Transport for LocalTransport {
             use std::time::Instant;
 
             let block_size = 64 * 1024; // 64KB blocks for good I/O performance
+            // verification hook: small blocks so that small files span several blocks
+            #[cfg(nijaru_sy_verif)]
+            let block_size: usize = std::env::var("SY_VERIF_BLOCK_SIZE")
+                .ok()
+                .and_then(|v| v.parse().ok())
+                .unwrap_or(block_size);
             let total_start = Instant::now();
 
             // Check if source file is sparse FIRST (before change ratio)
@@ -487,6 +504,10 @@ impl Transport for LocalTransport {
             let has_hardlinks = has_hard_links(&dest);
 
             let use_cow_strategy = supports_cow && same_fs && !has_hardlinks;
+            // verification hook: select the clone + selective-write branch on any filesystem
+            #[cfg(nijaru_sy_verif)]
+            let use_cow_strategy = use_cow_strategy
+                || (std::env::var("SY_VERIF_FORCE_COW").is_ok() && !has_hardlinks);
 
             // Log strategy selection for debugging
             if use_cow_strategy {
